@@ -1886,7 +1886,7 @@ func (c *DefaultCtx) configDependentPaths() {
 	c.path = append(c.path[:0], c.pathOriginal...)
 	// If UnescapePath enabled, we decode the path and save it for the framework user
 	if c.app.config.UnescapePath {
-		c.path = fasthttp.AppendUnquotedArg(c.path[:0], c.path)
+		c.path = unescapePathBytes(c.path[:0], c.path)
 	}
 
 	// another path is specified which is for routing recognition only
